@@ -175,7 +175,7 @@ class Sched:
         self.sems[rest[c]].release()
 
     def run(self, timeout=60):
-        threads = [threading.Thread(target=self._wrapper, args=(t,), daemon=True) for t in range(self.n)]
+        threads = [threading.Thread(target=self._wrapper, args=(t,), daemon=True, name=f"vf-{t}") for t in range(self.n)]
         for t in threads:
             t.start()
         try:
